@@ -7,6 +7,8 @@ import (
 
 	sdkmath "cosmossdk.io/math"
 	stakingtypes "cosmossdk.io/x/staking/types"
+	abci "github.com/cometbft/cometbft/abci/types"
+	cmttypes "github.com/cometbft/cometbft/types"
 	sdk "github.com/cosmos/cosmos-sdk/types"
 
 	"verifharness/apph"
@@ -22,6 +24,8 @@ func Spike(name string) error {
 		return spikeRF()
 	case "hang":
 		return spikeHang()
+	case "proposal":
+		return spikeProposal()
 	}
 	return fmt.Errorf("unknown spike %q", name)
 }
@@ -169,3 +173,47 @@ func spikeHang() error {
 }
 
 var _ = stakingtypes.ModuleName
+
+// spikeProposal: does PrepareProposal respect MaxTxBytes once it appends the METADATA section?
+func spikeProposal() error {
+	w := newWorld(1, 6, 2)
+	defer w.h.Close()
+	ctx := w.h.Ctx()
+	p, err := w.h.App.DaKeeper.Params.Get(ctx)
+	if err != nil {
+		return err
+	}
+	p.ChallengePeriod = 3 * time.Second
+	if err := w.h.App.DaKeeper.Params.Set(ctx, p); err != nil {
+		return err
+	}
+	m, uri := w.msgPublish(1, 4, 2)
+	w.queue("da-publish", 1, 3_000_000, m)
+	w.mustBlock(time.Second)
+	w.mustBlock(5 * time.Second)
+	d, found, _ := w.h.App.DaKeeper.GetPublishedData(w.h.Ctx(), uri)
+	fmt.Println("item", found, d.Status)
+	// a full mempool: as many signed sends as fit max bytes
+	var txs [][]byte
+	for i := 0; i < 40; i++ {
+		bz, err := w.signTx(w.h.Accts[2], []sdk.Msg{w.msgDelegate(2, 0, int64(1000+i))}, 1_000_000)
+		if err != nil {
+			return err
+		}
+		txs = append(txs, bz)
+	}
+	size := func(xs [][]byte) int64 {
+		var t []cmttypes.Tx
+		for _, x := range xs {
+			t = append(t, cmttypes.Tx(x))
+		}
+		return cmttypes.ComputeProtoSizeForTxs(t)
+	}
+	max := size(txs)
+	resp, err := w.h.App.PrepareProposal(&abci.PrepareProposalRequest{MaxTxBytes: max, Txs: txs, Height: w.h.Height + 1, Time: w.h.Time.Add(time.Second)})
+	if err != nil {
+		return err
+	}
+	fmt.Printf("max_tx_bytes=%d  offered %d txs (%d bytes)  response %d entries, %d bytes  -> exceeds: %v\n", max, len(txs), size(txs), len(resp.Txs), size(resp.Txs), size(resp.Txs) > max)
+	return nil
+}
